@@ -230,6 +230,24 @@ pub fn catches<R>(f: impl FnOnce() -> R) -> Result<R, String> {
     }
 }
 
+/// A panic that escaped a workload case (the engines catch the panics they expect).
+/// * An *internal* failure (index/slice out of bounds, arithmetic overflow, unwrap on None…) on an
+///   in-domain step is a violation of the property under check: the operation was not carried out.
+/// * An `assert!`-style refusal is the crate declining an argument; where acceptance is part of the
+///   property (C12, C13, C18) the engines catch and judge it themselves. Elsewhere the history simply
+///   ends there: it is counted, and if such refusals become common the run is inconclusive (the
+///   workload no longer exercises what it promises) — never a violation.
+fn escaped_panic(cx: &mut CaseCtx, p: String) {
+    if p.starts_with("assertion") {
+        cx.rep.cov("history_ended_by_argument_assertion");
+        if cx.verbose {
+            eprintln!("[replay] case ended by an argument assertion: {}", p);
+        }
+    } else {
+        cx.violation(format!("unexpected panic on an in-domain workload step: {}", p), J::Null);
+    }
+}
+
 /// Run `n` cases of stream `stream` in parallel. Each case gets its own PRNG derived from
 /// (seed, stream, idx). A panic escaping a case is an unexpected refusal of an in-domain
 /// workload step and is reported as a violation (the engines catch the panics they expect).
@@ -245,7 +263,7 @@ where
         let mut rep = Report::default();
         let mut cx = CaseCtx { cfg, stream, idx: *i, rng: Rng::for_case(cfg.seed, stream, *i), rep: &mut rep, verbose: true };
         if let Err(p) = catches(|| f(&mut cx)) {
-            cx.violation(format!("unexpected panic on an in-domain workload step: {}", p), J::Null);
+            escaped_panic(&mut cx, p);
         }
         total.merge(rep);
         return total;
@@ -259,7 +277,7 @@ where
             let idx = (j * (n / k) + 1).min(n - 1);
             let mut cx = CaseCtx { cfg, stream, idx, rng: Rng::for_case(cfg.seed, stream, idx), rep: &mut rep, verbose: false };
             if let Err(p) = catches(|| f(&mut cx)) {
-                cx.violation(format!("unexpected panic on an in-domain workload step: {}", p), J::Null);
+                escaped_panic(&mut cx, p);
             }
         }
         total.merge(rep);
@@ -281,7 +299,7 @@ where
                         let mut cx =
                             CaseCtx { cfg, stream, idx, rng: Rng::for_case(cfg.seed, stream, idx), rep: &mut rep, verbose: false };
                         if let Err(p) = catches(|| f(&mut cx)) {
-                            cx.violation(format!("unexpected panic on an in-domain workload step: {}", p), J::Null);
+                            escaped_panic(&mut cx, p);
                         }
                     }
                 }
@@ -290,6 +308,10 @@ where
         }
     });
     total.merge(merged.into_inner().unwrap());
+    let refused = total.cov.get("history_ended_by_argument_assertion").copied().unwrap_or(0);
+    if n >= 50 && refused * 50 > n {
+        total.inconclusive(format!("stream {}: {} of {} cases ended by an argument assertion of the crate; the workload no longer covers what it promises", stream, refused, n));
+    }
     total
 }
 
